@@ -96,6 +96,10 @@ def candidates(fname, text):
         if not fn or not s or s.startswith(('/*', '*', '//', '#')):
             continue
         code = l
+        tailc = ''
+        mc = re.search(r'/\*.*\*/\s*$', code)
+        if mc and code[:mc.start()].count('"') % 2 == 0:
+            code, tailc = code[:mc.start()], code[mc.start():]      # never mutate inside a trailing comment
         # relational / logical operator swaps (one occurrence each)
         for a, b in (('<=', '<'), ('>=', '>'), ('==', '!='), ('!=', '=='), ('&&', '||'), ('||', '&&')):
             for m in re.finditer(re.escape(a), code):
@@ -130,7 +134,7 @@ def candidates(fname, text):
             out.append((i, 'op +->-', code[:m.start()] + ' - ' + code[m.end():], fn))
         for m in re.finditer(r' - ', code):
             out.append((i, 'op -->+', code[:m.start()] + ' + ' + code[m.end():], fn))
-    return [(fname, i, kind, new, fn) for (i, kind, new, fn) in out if new != lines[i]]
+    return [(fname, i, kind, new, fn) for (i, kind, new, fn) in out if new.strip() != lines[i].strip() and new.strip() != re.sub(r'/\*.*\*/\s*$', '', lines[i]).strip()]
 
 
 def setup_worker(k):
